@@ -307,6 +307,8 @@ class Own:
                 cs.append(("owned",) if it[0] == "owned" and self._owned_deep(f, d.iter, d) else ("elem", it))
             else:
                 cs.append(("unknown", type(d).__name__))
+        if is_param and defs and ctx.entry_reaches(f, name, at):
+            cs.append(("param", name))  # on some path the parameter's own value is still the current one
         had_same = any(self._root(c) == ("same",) for c in cs)
         cs = [c for c in cs if self._root(c) != ("same",)]
         if is_param and not cs:
@@ -418,9 +420,10 @@ class Own:
                     cs.append(c)
         self._stack.pop()
         res = ("owned",)
-        for c in cs:
-            if c[0] in ("param", "selffield", "shared", "global", "execfield"):
-                res = c
+        for kind in ("global", "shared", "selffield", "execfield", "param"):  # worst first
+            hit = [c for c in cs if c[0] == kind]
+            if hit:
+                res = hit[0]
                 break
         self._ret[f.qualname] = res
         return res
@@ -458,7 +461,10 @@ class Own:
                     rt = self.ctx.type_of(f, fn.value)
                     if rt[0] in ("str",):
                         continue
-                    out.append({"node": n, "target": fn.value, "how": f".{fn.attr}()", "stmt": n})
+                    tgt = fn.value
+                    if isinstance(tgt, ast.Call) and dotted(tgt.func) == "super" and f.cls is not None and self.params(f):
+                        tgt = ast.copy_location(ast.Name(id=self.params(f)[0], ctx=ast.Load()), tgt)  # super().m(...) acts on self
+                    out.append({"node": n, "target": tgt, "how": f".{fn.attr}()", "stmt": n})
                 elif dotted(fn) in ("object.__setattr__", "setattr") and len(n.args) >= 2:
                     out.append({"node": n, "target": n.args[0], "how": "setattr", "stmt": n})
             elif isinstance(n, ast.Global):
@@ -916,6 +922,15 @@ def own_compose(ctx: Ctx) -> RuleResult:
                         r.violate(f"BaseDAG.compose: the composed DAG shares {norm_src(k.value)} with the original", f.loc(n),
                                   "setup results / nodes written by one DAG would appear in the other", norm_src(k.value))
     res = [n for n in iter_own_nodes(f.node) if isinstance(n, ast.Assign) and dotted(n.targets[0]) == "results"]
+    if len(res) == 1 and isinstance(res[0].value, ast.Call) and res[0].value.args and isinstance(res[0].value.args[0], ast.GeneratorExp):
+        gen = res[0].value.args[0]
+        flt = gen.generators[0].ifs
+        okt = len(flt) == 1 and isinstance(flt[0], ast.Compare) and isinstance(flt[0].ops[0], ast.In) and dotted(flt[0].comparators[0]) == tbl
+        r.ob(okt, {"results kept for": norm_src(flt[0]) if flt else None})
+        if flt and not okt:
+            r.violate(f"BaseDAG.compose: stored values are kept by '{norm_src(flt[0])}', not by membership in the composed node table '{tbl}'",
+                      f.loc(res[0]), "the composed DAG must hold a stored value exactly for the nodes it contains: ids of the replaced inputs "
+                      "(or of nodes left out) would make the first call fail or shadow the supplied value", norm_src(flt[0]))
     okr = len(res) == 1 and isinstance(res[0].value, ast.Call) and dotted(res[0].value.func) == "StrictDict"
     r.ob(okr, {"new results map": norm_src(res[0].value)[:80] if res else None})
     if res and not okr:
